@@ -46,6 +46,10 @@ class PandasMaterializer(FormulaMaterializer):
                 values.dtype == object
                 or isinstance(values.dtype, pandas.CategoricalDtype)
                 or pandas.api.types.is_string_dtype(values.dtype)
+                # Arrow-backed categorical (dictionary) columns
+                or str(getattr(values.dtype, "pyarrow_dtype", "")).startswith(
+                    "dictionary"
+                )
             )
         return super()._is_categorical(values)
 
